@@ -1034,7 +1034,14 @@ func finish(e *Env, wall time.Duration) int {
 		samples = append(samples, map[string]any{"kind": k, "case": sum.Samples[k]})
 	}
 	if samples == nil {
-		samples = []any{}
+		// the check offered no sample: fall back to replayable case coordinates
+		ph0 := "?"
+		if len(spec.Phases) > 0 {
+			ph0 = spec.Phases[0].Name
+		}
+		samples = []any{map[string]any{"kind": "case-coordinates", "case": map[string]any{
+			"phase": ph0, "index": 0, "seed": e.Seed, "tier": e.Tier,
+			"replay": fmt.Sprintf("bin/%s -case %s:0 -seed %d -tier %s", strings.ToLower(spec.ID), ph0, e.Seed, e.Tier)}}}
 	}
 	cov["samples"] = samples
 	for k, v := range sum.Counters {
